@@ -250,11 +250,8 @@ namespace Pistache::Http::Header
             os << directiveString(d);
             if (hasDelta(d))
             {
-                auto delta = d.delta();
-                if (delta.count() > 0)
-                {
-                    os << "=" << delta.count();
-                }
+                // the reader requires "=delta-seconds": a delta of 0 is a value, not "absent"
+                os << "=" << d.delta().count();
             }
 
             if (i < directives_.size() - 1)
